@@ -6,6 +6,8 @@ import (
 	"fmt"
 	"strings"
 
+	vvalue "github.com/smarthome-go/homescript/v3/homescript/runtime/value"
+
 	"hv/drive"
 	"hv/fw"
 	"hv/prog"
@@ -59,6 +61,10 @@ func Features(preset string) prog.Features {
 	f.DigitNames = !fw.KFOpen("KF-compiler-mangle-collision")
 	f.ElemAliasing = !fw.KFOpen("KF-vm-scalar-alias")
 	f.NullLiteral = !fw.KFOpen("KF-vm-null-literal-leak")
+	if preset == "shared" {
+		// the language both backends implement: no trigger statements (C04)
+		f.Triggers = false
+	}
 	if strings.HasPrefix(preset, "poison:") {
 		switch strings.TrimPrefix(preset, "poison:") {
 		case "DigitNames":
@@ -130,7 +136,22 @@ func RunVMAgainstModel(pr *prog.Program, limits *drive.VMOpts) (why, sig string,
 		o.Rejected = ao.ErrorSummary()
 		return "", "", o
 	}
-	o.Model = prog.Run(pr, nil, 0)
+	// host-provided singleton values: for every second program that declares a singleton
+	var hostModel map[string]prog.Value
+	var hostVM map[string]vvalue.Value
+	for _, m := range pr.Modules {
+		for _, sg := range m.Singletons {
+			if len(o.Src[pr.Entry])%2 == 0 && sg.T.K == prog.TInt {
+				n := int64(len(o.Src[pr.Entry]) % 97)
+				if hostModel == nil {
+					hostModel, hostVM = map[string]prog.Value{}, map[string]vvalue.Value{}
+				}
+				hostModel[sg.Name] = n
+				hostVM[sg.Name] = *vvalue.NewValueInt(n)
+			}
+		}
+	}
+	o.Model = prog.Run(pr, hostModel, 0)
 	if o.Model.Discard {
 		return "", "", o
 	}
@@ -138,6 +159,7 @@ func RunVMAgainstModel(pr *prog.Program, limits *drive.VMOpts) (why, sig string,
 	if limits != nil {
 		opts = *limits
 	}
+	opts.Singletons = hostVM
 	o.VM = drive.RunVM(ao.Modules, o.Src, pr.Entry, opts)
 	o.TraceLines = strings.Count(o.Model.Effects, "\n")
 	got := o.VM.Log.Render()
